@@ -68,7 +68,9 @@ CHECKS = {
         "Hypothesis property test against a reference Arrhenius model of the membrane (nearest experiment, stated or regressed Ea)",
         "Generated-input search over components, 1..6 experiments per component in any order and unit, stated/unstated/mixed activation energies, "
         "exact-Arrhenius and noisy families, query temperatures 260..420 K; oracle = harness reference model (two-pass least squares), Ea recovery and "
-        "nearest-experiment independence on exact lines, molar = mass selectivity x M2/M1, pure-component flux = P x (Psat - permeate pressure). Exploration.",
+        "nearest-experiment independence on exact lines, molar = mass selectivity x M2/M1, pure-component flux = P x (Psat - permeate pressure); "
+        "differential twin: the same experiments written as ideal_experiments.csv (blank cells for unstated values) and loaded with Membrane.load answer "
+        "like the membrane built from objects; typed twins (int / numpy.int64 temperatures) and repeated questions on one membrane. Exploration.",
         "ties between nearest experiments (< 1e-6 K) are skipped; non-exact experiments are an Arrhenius line with bounded noise so regressed Ea stays in the quantified range.",
         "DESIGN.md section 6 C12",
     ),
@@ -77,7 +79,8 @@ CHECKS = {
         "Generated-input search over membrane x mixture x {NRTL, UNIQUAC} x feed state (molar/mass) x permeate mode x precision x ideal processes of "
         "1..6 steps; oracle: all entry points reproduce the standalone flux calculation (rel 1e-12), y = J1/(J1+J2), separation factor = "
         "(y1/y2)/(x1/x2), PSI = total flux x (sf-1), every process step equals a standalone calculation at its reported state. Non-trivial cases "
-        "are those where NRTL and UNIQUAC answers differ, so a silent fall-back is visible. Exploration.",
+        "are those where NRTL and UNIQUAC answers differ, so a silent fall-back is visible; metamorphic: moving the parameters of the model that was "
+        "NOT selected leaves every entry point bit-identical; the standalone calculation uses the permeate condition each step reports. Exploration.",
         "reference call uses keyword arguments; cases whose reference call raises are discards.",
         "DESIGN.md section 6 C08",
     ),
@@ -85,7 +88,8 @@ CHECKS = {
         "Hypothesis round-trip test: solver -> DiffusionCurve inversion with a computed tolerance; reference inversion; permeance -> flux -> permeance; unit normalisation",
         "Generated-input search over mixtures x 3 permeate modes x permeances (kg/SI/GPU) x 1..4 compositions (molar/mass) x T x precision 1e-8..1e-5; "
         "oracle: curve built from solver fluxes reports the solver's permeances within the exact effect of the stopping tolerance, equals the harness "
-        "inversion, curve from permeances gives P x pf and re-inverts to P (1e-12), permeances always exposed in kg/(m2 h kPa). The permeate-pressure "
+        "inversion, curve from permeances gives P x pf and re-inverts to P (1e-12), permeances always exposed in kg/(m2 h kPa) - also for curves "
+        "read once before (derived quantities are views), tabulated curves (from_frame) and one Permeance object shared by both components. The permeate-pressure "
         "basis mismatch (D7) is a recorded known finding with a narrow predicate. Exploration.",
         "NRTL only (a DiffusionCurve has no activity-model field); last solver iterate observed through the evaluation trace.",
         "DESIGN.md section 6 C09",
@@ -132,7 +136,8 @@ CHECKS = {
         "Hypothesis metamorphic test: mole- vs mass-fraction twin at every public entry point",
         "Generated-input search: the same physical composition as mass fraction and as mole fraction through the flux solver, permeate-composition and "
         "separation-factor helpers, ideal curve and its metrics, 4 process models and the non-ideal curve (basis of the initial feed varied on one "
-        "curve-set object), and measurement extraction from the same curve set expressed in both bases; oracle: equal results to 1e-9, process feed "
+        "curve-set object), measurement extraction from the same curve set expressed in both bases, and tabulated curves (from_frame) with all-mass, all-mole and mixed rows; "
+        "oracle: equal results to 1e-9, process feed "
         "compositions typed weight. Exploration.",
         "fitted coefficients are compared only through their inputs (measurement points), as the property says; twins compared only for equal evaluation counts.",
         "DESIGN.md section 6 C07",
@@ -159,21 +164,24 @@ CHECKS = {
         "Round trips of DiffusionCurve (save / DiffusionCurveSet.load), PervaporationFunction (binary + JSON), Conditions (JSON) and ProcessModel "
         "(both storage modes; generated by all four process generators) with every numeric field to 1e-9, mixture, physical compositions, units, "
         "permeate condition, lengths; stateful histories of saves under one membrane directory with directly constructed ProcessModels: after every "
-        "operation all earlier process_* directories are byte-identical; a forced directory-name collision (constant clock) must raise and change nothing. Exploration.",
+        "operation all earlier process_* directories are byte-identical; a forced directory-name collision (constant clock) must raise and change nothing; files saved over an earlier file of the same name and "
+        "loaded again; one file holding two curves (vacuum curve first or last). Exploration.",
         "loading needs built-in mixtures (lookup by name); comments strings are not compared; temporary directories are created and removed per case.",
         "DESIGN.md section 6 C17",
     ),
     "C18": (
         "Hypothesis property test: admissibility predicate over returned trajectories incl. coarse discretisations",
         "Generated-input search over all process kinds x mixtures x modes x models with steps removing 10%..1000% of the feed (70%), fine steps (30%) "
-        "and an explicit class of single self-cooling steps that land below 0 K on the last reported state; oracle: a returned trajectory has positive "
+        "and constructed classes (single self-cooling steps landing below 0 K on the last state, feeds near the overflow of the vapour pressure, "
+        "non-selective membranes exhausted cumulatively, steps at the exhaustion boundary of one component +-1e-14..1e-3, programmes running below 0 K "
+        "or overflowing to +inf); oracle: a returned trajectory has positive "
         "finite mass, fractions in [0,1], positive finite temperature, finite fluxes and heats at every reported step; raising is accepted. Exploration.",
         "any exception counts as raising; the popped look-ahead state is not examined.",
         "DESIGN.md section 6 C18",
     ),
     "C19": (
         "Enumerated rejection matrix x Hypothesis-generated valid arguments, differential against the valid variant of each call",
-        "The 53 cells (invalid-specification class x entry point reaching it) are enumerated; the otherwise valid arguments are generated; oracle: "
+        "The cells (invalid-specification class x entry point reaching it, 58 incl. tabulated curves, membrane folders and loaded membranes; listed in the evidence) are enumerated; the otherwise valid arguments are generated; oracle: "
         "the valid variant(s) return and the invalid variant raises from package code (both permeate conditions incl. p = 0, mixture without "
         "parameters, NRTL/UNIQUAC without parameters or component constants, curve without data, single experiment without Ea for either component). Exploration "
         "over arguments, exhaustive over cells.",
@@ -184,7 +192,8 @@ CHECKS = {
         "Hypothesis stateful test (RuleBasedStateMachine) over shared objects: deep snapshots + bit-identical comparison with a forkserver-fresh process",
         "Stateful generation of 2..12 modelling calls (solver, helpers, partial pressures, ideal/non-ideal curves, 4 processes, fit, find_best_fit, "
         "measurement extraction, membrane queries) on ONE set of shared objects incl. Composition objects that carry the same number in different "
-        "bases and are used with two mixtures; after every call: shared objects and all built-in Components/Mixtures deeply unchanged, result "
+        "bases and are used with two mixtures, programmes starting off the stated initial temperature, temperatures a few mK apart, curve sets "
+        "listed hottest-first; after every call: shared objects and all built-in Components/Mixtures deeply unchanged, result "
         "bit-identical to an immediate repetition and (a third of the calls in quick, all in thorough) to the same call made first in a fresh process. Exploration.",
         "fresh interpreter state = new process forked from a forkserver that imported the package and never called it; comments (datetime) excluded.",
         "DESIGN.md section 6 C20",
